@@ -167,6 +167,8 @@ type env struct {
 	// only checks that successive numbers are consecutive (main goroutine only)
 	ff       *ffGate
 	ffW      interceptor.RTPWriter
+	sib      interceptor.RTPWriter // a stream of a second interceptor built by the same factory
+	sibSSRC  uint32
 	ffInfo   *interceptor.StreamInfo
 	ffHdr    rtp.Header
 	segments [][]rec // monitored histories separated by fast-forwards; each is decided on its own
@@ -763,6 +765,16 @@ func newEnv(c *vf.Case, r *vf.Rand, o opts) (*env, []*writer, interceptor.Interc
 		c.Violation("setup/factory", "NewInterceptor: %v", err)
 		return nil, nil, nil
 	}
+	if r.Chance(0.3) {
+		// a second interceptor of the SAME factory (another peer connection of one API object)
+		// sends during every concurrent epoch: the run of numbers belongs to an instance
+		if sib, err := factory.NewInterceptor("c15-sibling"); err == nil && sib != nil {
+			info := &interceptor.StreamInfo{ID: "sib", SSRC: r.U32(), RTPHeaderExtensions: []interceptor.RTPHeaderExtension{{URI: transportCCURI, ID: 3}}}
+			e.sib = sib.BindLocalStream(info, interceptor.RTPWriterFunc(func(*rtp.Header, []byte, interceptor.Attributes) (int, error) { return 0, nil }))
+			e.sibSSRC = info.SSRC
+			c.Add("histories_with_a_sibling_interceptor_of_the_same_factory", 1)
+		}
+	}
 
 	// streams: at least one negotiated
 	negAt := r.Intn(o.nStreams)
@@ -1041,6 +1053,17 @@ func (e *env) epoch(ws []*writer, quota []int) {
 	var wg sync.WaitGroup
 	var ready, goFlag atomic.Int32
 	e.running.Store(int64(len(ws)))
+	if e.sib != nil {
+		wg.Add(1)
+		go func() {
+			defer wg.Done()
+			for k := 0; k < 60; k++ {
+				h := rtp.Header{Version: 2, PayloadType: 100, SequenceNumber: uint16(k), SSRC: e.sibSSRC}
+				_, _ = e.sib.Write(&h, []byte{1}, nil)
+				runtime.Gosched()
+			}
+		}()
+	}
 	for i, w := range ws {
 		wg.Add(1)
 		go func(w *writer, n int) {
